@@ -125,6 +125,8 @@ Definition last_row (utf8 : bool) (row : crow) : result (crow * Z * option crun)
   | Some (z_attr, z_cs, last_text) =>
       let new_row := removelast row in
       let last_cols := text_width utf8 last_text in
+      (* the last run holds only zero-width characters: it is no Z to slide into place *)
+      if last_cols =? 0 then Ok (row, 0, None) else
       let '(last_offs, z_col) := calc_text_pos utf8 last_text (last_cols - 1) in
       if last_offs =? 0 then
         match last_opt new_row with
